@@ -1,12 +1,14 @@
 /-
   C17 — fatigue blurs every value by at most the fatigue ratio.
-  Property theorems only (helper lemmas: Rdm/Lemmas/BiasAFatigue.lean).  Model:
+  Property theorems only (helper lemmas: Rdm/Lemmas/BiasAFatigue.lean, BiasAFatigueSpec.lean,
+  BiasAFatigueCheck.lean).  Model:
   Rdm/Model/BiasesA.lean (`fatigueApply`, `fatigueBlur`), tied to the Go code bit-for-bit by the stage
   `fatigue-apply` of harness/main/c17.go (`exp` is external: the blur stage is fed the ratio the code
   reported; the formula of the ratio is checked with 1e-12 relative tolerance by `check-c17-ratio`).
 -/
 import Rdm.Lemmas.BiasAFatigue
 import Rdm.Lemmas.BiasAFatigueSpec
+import Rdm.Lemmas.BiasAFatigueCheck
 import Rdm.Spec.C17
 set_option linter.unusedSectionVars false
 open Rdm Rdm.BiasA
@@ -164,11 +166,70 @@ theorem frame_satisfies_spec {f : Rat} {b : Bounding Rat} {cur res : DMP Rat} {v
     {rep : FatigueReport Rat} (h : fatigueBlur f b cur vd sd = .ok (res, rep)) :
     Spec.C17.frameOk cur res = true := fatigue_frameOk h
 
+/-- THE WHOLE CHECKER, one statement: `Spec.C17.check` — what the driver op `check-c17` evaluates on the
+    implementation's output (`opCheckC17`: `Spec.C17.explain f b cur res rep`, `f` the ratio) — accepts
+    the model's output: frame (criteria / method parameters untouched), every value of every considered
+    and not-considered alternative (`valueOk` against the declared-or-observed range), and the report
+    (`rep.f = f`, report alternatives = alternatives handed on).
+    Domain (true for every validated request):
+    * `hd`   value draws in `[0,1)` (the generator's contract; the sign stream is unconstrained);
+    * `hnd`  criteria ids distinct (`Criteria.Validate`; the spec looks values up by criterion id);
+    * `hord` declared ranges ordered (`Criteria.Validate` demands max > min; an observed range is
+             ordered by construction).
+    No hypothesis on the alternatives: with no known alternative both value clauses are vacuous. -/
+theorem fatigue_satisfies_spec {f : Rat} {b : Bounding Rat} {cur res : DMP Rat} {vd sd : Draws Rat}
+    {rep : FatigueReport Rat} (h : fatigueBlur f b cur vd sd = .ok (res, rep))
+    (hd : ∀ u ∈ vd, 0 ≤ u ∧ u < 1)
+    (hnd : (cur.crit.map (·.id)).Nodup)
+    (hord : ∀ c ∈ cur.crit, ∀ r, c.range = some r → r.1 ≤ r.2) :
+    Spec.C17.check f b cur res rep = true := c17spec_check h hd hnd hord
+
+/-- the same in the form the driver prints: the checker's verdict is `"ok"` -/
+theorem fatigue_explain_ok {f : Rat} {b : Bounding Rat} {cur res : DMP Rat} {vd sd : Draws Rat}
+    {rep : FatigueReport Rat} (h : fatigueBlur f b cur vd sd = .ok (res, rep))
+    (hd : ∀ u ∈ vd, 0 ≤ u ∧ u < 1)
+    (hnd : (cur.crit.map (·.id)).Nodup)
+    (hord : ∀ c ∈ cur.crit, ∀ r, c.range = some r → r.1 ≤ r.2) :
+    Spec.C17.explain f b cur res rep = "ok" := c17spec_explain_ok (c17spec_check h hd hnd hord)
+
+/-- `Fatigue.Apply` as wired (one stream for magnitude and sign): whatever ratio `f` the fatigue
+    function yields (any `exp`), the checker fed with that ratio accepts the result -/
+theorem fatigueApply_satisfies_spec {exp : Rat → Rat} {fn : FatigueFn Rat} {f : Rat} {b : Bounding Rat}
+    {cur res : DMP Rat} {d : Draws Rat} {rep : FatigueReport Rat}
+    (h : fatigueApply exp fn b cur d = .ok (res, rep)) (hf : fatigueRatio exp fn = .ok f)
+    (hd : ∀ u ∈ d, 0 ≤ u ∧ u < 1)
+    (hnd : (cur.crit.map (·.id)).Nodup)
+    (hord : ∀ c ∈ cur.crit, ∀ r, c.range = some r → r.1 ≤ r.2) :
+    Spec.C17.check f b cur res rep = true ∧ Spec.C17.explain f b cur res rep = "ok" := by
+  rw [apply_uses_one_stream, BiasA.bind_ok] at h
+  obtain ⟨f', hf', h⟩ := h
+  rw [hf] at hf'
+  cases hf'
+  exact ⟨c17spec_check h hd hnd hord, c17spec_explain_ok (c17spec_check h hd hnd hord)⟩
+
+/-- the hypotheses are satisfiable together (and the conclusion is not vacuous): two criteria (one with a
+    declared range, one observed), one considered and one not-considered alternative, bounding on -/
+example :
+    let cur : DMP Rat :=
+      { nc := [{ id := "b", vals := [("c1", 4), ("c2", 1)] }],
+        co := [{ id := "a", vals := [("c1", 2), ("c2", 3)] }],
+        crit := [{ id := "c1", type := "gain", range := some (0, 10) }, { id := "c2", type := "cost" }],
+        mp := .owa [] }
+    let b : Bounding Rat := { scaling := 2, nonNeg := true }
+    let d : Draws Rat := [1/4, 3/4, 0, 1/2]
+    (∃ res rep, fatigueBlur (1/2) b cur d d = .ok (res, rep)) ∧
+    (∀ u ∈ d, 0 ≤ u ∧ u < 1) ∧ (cur.crit.map (·.id)).Nodup ∧
+    (∀ c ∈ cur.crit, ∀ r, c.range = some r → r.1 ≤ r.2) := by
+  intro cur b d
+  refine ⟨?_, by decide +kernel, by decide +kernel, by decide +kernel⟩
+  have hok : (match fatigueBlur (1/2) b cur d d with | .ok _ => true | .error _ => false) = true := by
+    decide +kernel
+  cases hx : fatigueBlur (1/2) b cur d d with
+  | ok p => exact ⟨p.1, p.2, rfl⟩
+  | error e => rw [hx] at hok; cases hok
+
 /-
   Not proved here:
-  * `Spec.C17.check (model output) = true` as one statement: proved are its per-value clause
-    (`moved_value_satisfies_spec`) and its frame clause (`frame_satisfies_spec`); report faithfulness is
-    `fatigue_blurs_within_ratio` (`rep.co = res.co`, `rep.nc = res.nc`, `rep.f = f`);
   * anything about `math.Exp` beyond `exp 0 = 1` (`ratio_expFromZero_zero`): the formula of the ratio is
     compared with 1e-12 relative tolerance by `check-c17-ratio` on every generated case;
   * "the sign takes both directions over a run" is a statement about the generator; the model side is
